@@ -543,7 +543,7 @@ func parseLiteral(literal []byte) (byte, any, error) {
 		} else if number {
 			switch numberType {
 			case 'F', 'f':
-				num, err := strconv.ParseFloat(string(literal[:strlen]), 64)
+				num, err := strconv.ParseFloat(string(literal[:strlen]), 32)
 				return TagFloat, float32(num), err
 			case 'D', 'd':
 				fallthrough
